@@ -217,6 +217,19 @@ def run(ctx, rep):
                 if not guarded:
                     okall = False
                     why.append("cache load without a membership test on the same key")
+            elif isinstance(val, ast.Call) and isinstance(val.func, ast.Attribute) and val.func.attr == "get" and \
+                    K.self_attr(val.func.value, "_proxy_cache") and val.args:
+                keys.add(A.src(val.args[0]))
+                # a .get() result may be None: it must be told apart by identity, never by truthiness (the truth value of
+                # a proxy is the remote object's __bool__/__len__)
+                ident = [t for t in gu.live if t.kind == "test" and isinstance(t.ast, ast.Compare) and
+                         isinstance(t.ast.ops[0], (ast.Is, ast.IsNot)) and A.src(t.ast.left) == v.id and
+                         A.src(t.ast.comparators[0]) == "None"]
+                truthy = [t for t in gu.live if t.kind == "test" and isinstance(t.ast, ast.Name) and t.ast.id == v.id]
+                if truthy or not ident:
+                    okall = False
+                    why.append("the cached proxy is tested by truthiness (`if %s:`), which asks the remote object for its "
+                               "__bool__/__len__: a falsy target (empty list) is treated as a cache miss and gets a second proxy" % v.id)
             else:
                 # fresh proxy: must be stored under the key before the return, on every path
                 stores = [s for s in gu.live if s.kind == "stmt" and isinstance(s.ast, ast.Assign) and any(
